@@ -1,0 +1,119 @@
+//! Verification hooks (cargo feature `verif`, off by default). Not part of the public API.
+//!
+//! Everything here only *observes*: it re-exports the internal word types, wraps the same
+//! parse / apply / render calls `run` makes so a monitor can look at the structural word
+//! instead of its rendering, and provides the step counter used to turn a hang into a
+//! located unwinding failure.
+use std::cell::{Cell, RefCell};
+
+use crate::{
+    alias::{lexer::AliasLexer, parser::AliasParser, AliasKind, Transformation},
+    normalise, parse_rule_groups, rule::Rule, Error, RuleGroup, Segment,
+};
+
+pub use crate::syll::{StressKind, Syllable};
+pub use crate::word::Word;
+
+pub const N_SITES: usize = 256;
+
+thread_local! {
+    static TICKS:  Cell<u64> = const { Cell::new(0) };
+    static BUDGET: Cell<u64> = const { Cell::new(u64::MAX) };
+    static SITES:  RefCell<[u64; N_SITES]> = const { RefCell::new([0; N_SITES]) };
+}
+
+/// Step counter, called at every loop head of the interpreter.
+/// Exhausting the budget unwinds with `VERIF_BUDGET site=<id>`.
+#[inline]
+pub fn tick(site: u16) {
+    let t = TICKS.with(|c| { let v = c.get() + 1; c.set(v); v });
+    SITES.with(|s| s.borrow_mut()[site as usize % N_SITES] += 1);
+    if t > BUDGET.with(|b| b.get()) {
+        BUDGET.with(|b| b.set(u64::MAX));
+        panic!("VERIF_BUDGET site={site}");
+    }
+}
+
+/// Sets the budget for the calling thread and resets its tick count.
+pub fn set_budget(n: u64) { BUDGET.with(|b| b.set(n)); TICKS.with(|c| c.set(0)); }
+pub fn ticks() -> u64 { TICKS.with(|c| c.get()) }
+pub fn reset_sites() { SITES.with(|s| *s.borrow_mut() = [0; N_SITES]); }
+pub fn site_hits() -> [u64; N_SITES] { SITES.with(|s| *s.borrow()) }
+
+/// Used by the `asca` binary: budget from the environment variable `ASCA_VERIF_BUDGET`, if set.
+pub fn budget_from_env() {
+    if let Some(n) = std::env::var("ASCA_VERIF_BUDGET").ok().and_then(|s| s.parse::<u64>().ok()) {
+        set_budget(n);
+    }
+}
+
+pub struct ParsedRules(Vec<Vec<Rule>>);
+
+impl ParsedRules {
+    pub fn group_count(&self) -> usize { self.0.len() }
+    pub fn rule_count(&self) -> usize { self.0.iter().map(|g| g.len()).sum() }
+}
+
+fn parse_alias_lines(kind: AliasKind, lines: &[String]) -> Result<Vec<Transformation>, Error> {
+    let mut v = Vec::new();
+    for (line, alias) in lines.iter().enumerate() {
+        v.extend(AliasParser::new(kind, AliasLexer::new(kind, &alias.chars().collect::<Vec<_>>(), line).get_line()?, line).parse()?);
+    }
+    Ok(v)
+}
+
+/// What `run` does to one space-free word of an input line (including `normalise`).
+pub fn parse_word(text: &str, into: &[String]) -> Result<Word, Error> {
+    let a = parse_alias_lines(AliasKind::Deromaniser, into)?;
+    Word::new(normalise(text), &a)
+}
+
+/// What `run` does to print one word.
+pub fn render_word(w: &Word, from: &[String]) -> Result<String, Error> {
+    let a = parse_alias_lines(AliasKind::Romaniser, from)?;
+    Ok(w.render(&a))
+}
+
+pub fn parse_rules(groups: &[RuleGroup]) -> Result<ParsedRules, Error> {
+    Ok(ParsedRules(parse_rule_groups(groups)?))
+}
+
+/// The word after every rule group, threaded exactly as `apply_rule_groups` threads it.
+pub fn apply_structural(rules: &ParsedRules, word: &Word) -> Result<Vec<Word>, Error> {
+    let mut out = Vec::with_capacity(rules.0.len());
+    let mut w = word.clone();
+    for g in &rules.0 {
+        for r in g { w = r.apply(w)?; }
+        out.push(w.clone());
+    }
+    Ok(out)
+}
+
+/// A word with the given syllables (as if typed without americanist letters).
+pub fn word_from_syllables(syllables: Vec<Syllable>) -> Word {
+    let mut w = Word::new(String::new(), &[]).expect("the empty word parses");
+    w.syllables = syllables;
+    w
+}
+
+/// The base phones in lexicographic order of their spelling.
+pub fn cardinals() -> Vec<(String, Segment)> {
+    let mut v: Vec<(String, Segment)> = crate::CARDINALS_MAP.iter().map(|(k, s)| (k.clone(), *s)).collect();
+    v.sort_by(|a, b| a.0.cmp(&b.0));
+    v
+}
+
+/// The diacritic characters in table order.
+pub fn diacritics() -> Vec<(char, String)> {
+    crate::DIACRITS.iter().map(|d| (d.diacrit, d.name.clone())).collect()
+}
+
+/// FNV-1a over the iteration order of the base-phone map of this process.
+pub fn table_order_fingerprint() -> u64 {
+    let mut h: u64 = 0xcbf29ce484222325;
+    for k in crate::CARDINALS_MAP.keys() {
+        for b in k.bytes() { h ^= b as u64; h = h.wrapping_mul(0x100000001b3); }
+        h ^= 0xff; h = h.wrapping_mul(0x100000001b3);
+    }
+    h
+}
